@@ -80,6 +80,10 @@ BigVerdict(r) ==
      ELSE IF Cardinality(defined) > 256 THEN "more than 256 colour registers defined"
      ELSE IF \E i \in 1..Len(r.selected) : r.selected[i] \notin defined THEN "undefined-register"
      ELSE IF ~r.same THEN "a second draw of the same image emitted different bytes"
+     \* levels # <<>>: the image is not subsampled and its colours (given at the 0..100 resolution) fit the palette:
+     \* exact reproduction needs every one of them as a defined register that is selected somewhere
+     ELSE IF \E i \in 1..Len(r.levels) : ~ \E d \in defs : <<d[3], d[4], d[5]>> = N(r.levels[i]) /\ \E j \in 1..Len(r.selected) : r.selected[j] = d[1]
+          THEN "a colour of the source is missing from the picture although the colours fit the palette and the image is not subsampled"
      ELSE "ok"
 Verdict(r) ==
   LET bs == N(r.bytes) IN
